@@ -191,3 +191,387 @@ def nesting_bombs(template, depths, closed=(True, False)):
                 body = op * d + ("null" if op != "[" else "") + (cl * d if c else "")
                 out.append((f"bomb{d}{'c' if c else 'o'}", template.replace("@@", body)))
     return out
+
+
+# ------------------------------------------------------------------------------------------------
+# value-level mutations of SAVES (C15): the document stays well-formed JSON and structurally a save,
+# but carries values the engine itself would never have written for the story that loads it — what a
+# save from another revision of the script (LIST removed / renamed, knot gone, variable gone), from a
+# buggy exporter or from a hand-edited file looks like.
+ALIEN_INTS = [-1, -2, 0, 1, 2, 3, 4, 5, 7, 99, 10**6, -10**6, 2**31 - 1, -2**31, 2**31, -2**31 - 1, 2**32,
+              2**53, 2**63 - 1, -2**63, 2**63, 2**64, 1.5, -0.0, 1e300]
+PATH_KEYS = ("cPath", "previousContentObject", "originalChoicePath", "targetPath", "currentDivertTarget")
+INT_KEYS = ("idx", "type", "threadIndex", "threadCounter", "originalThreadIndex", "index", "turnIdx",
+            "storySeed", "previousRandom", "inkSaveVersion", "inkFormatVersion", "fnStart", "ci")
+
+
+def story_facts(story_doc):
+    """what a save can legitimately refer to: LIST definitions, knot / stitch paths, global names"""
+    lists, knots, glob = {}, [], []
+    if isinstance(story_doc, dict):
+        ld = story_doc.get("listDefs")
+        if isinstance(ld, dict):
+            lists = {k: v for k, v in ld.items() if isinstance(v, dict)}
+        root = story_doc.get("root")
+        named = root[-1] if isinstance(root, list) and root and isinstance(root[-1], dict) else {}
+        for k, v in named.items():
+            if k.startswith("#"):
+                continue
+            if k == "global decl":
+                for x in (v if isinstance(v, list) else []):
+                    if isinstance(x, dict) and isinstance(x.get("VAR="), str):
+                        glob.append(x["VAR="])
+                continue
+            knots.append(k)
+            sub = v[-1] if isinstance(v, list) and v and isinstance(v[-1], dict) else {}
+            knots.extend(k + "." + s for s in sub if not s.startswith("#"))
+    return dict(lists=lists, knots=knots, globals=glob)
+
+
+def _unknown_name(taken, pool=("Mood", "zz_gone", "Inventory", "colours2", "L")):
+    for n in pool:
+        if n not in taken:
+            return n
+    return "zz_" + "_".join(sorted(taken))[:20]
+
+
+def alien_values(facts, rng):
+    """{family: [(kind, value)]}: values that are well-formed for the loader's grammar but that the running
+    story cannot account for.  Fresh random picks on every call (names of the story's own LISTs, knots and
+    variables are mixed with unknown ones)."""
+    lists, knots, glob = facts["lists"], facts["knots"], facts["globals"]
+    unk = _unknown_name(lists)
+    unk2 = _unknown_name(set(lists) | {unk})
+    if lists:
+        ln = rng.choice(sorted(lists))
+        items = sorted(lists[ln].items()) or [("x", 1)]
+        it, iv = rng.choice(items)
+    else:
+        ln, it, iv = None, None, None
+    known_item = {ln + "." + it: iv} if ln else {}
+    knot = rng.choice(knots) if knots else "nowhere"
+    gv = rng.choice(glob) if glob else "x"
+    big = rng.choice([2**31 - 1, -2**31, 10**6, -7, 0])
+    fam = {}
+    fam["list"] = [
+        ("list-unknown-origin", {"list": {}, "origins": [unk]}),
+        ("list-unknown-origins2", {"list": {}, "origins": [unk, unk2]}),
+        ("list-mixed-origins", {"list": {}, "origins": ([ln] if ln else []) + [unk]}),
+        ("list-unknown-then-known-origin", {"list": {}, "origins": [unk] + ([ln] if ln else [])}),
+        ("list-empty-origins", {"list": {}, "origins": []}),
+        ("list-no-origins", {"list": {}}),
+        ("list-item-no-origin", {"list": {"happy": 1}}),
+        ("list-item-no-origin-known-name", {"list": {(it or "red"): iv or 1}}),
+        ("list-item-unknown-origin", {"list": {unk + ".happy": 1}}),
+        ("list-item-unknown-origin2", {"list": {unk + ".happy": 1, unk2 + ".sad": 2}}),
+        ("list-item-unknown-name", {"list": {(ln or unk) + ".nosuch": 7}}),
+        ("list-item-wrong-value", {"list": {(ln or unk) + "." + (it or "a"): (iv or 0) + 98}}),
+        ("list-item-extreme-value", {"list": {(ln or unk) + "." + (it or "a"): big}}),
+        ("list-item-empty-origin", {"list": {".x": 1}}),
+        ("list-item-empty-name", {"list": {(ln or unk) + ".": 1}}),
+        ("list-item-empty-key", {"list": {"": 1}}),
+        ("list-item-dotted", {"list": {"a.b.c": 1}}),
+        ("list-known-item-unknown-origins", {"list": dict(known_item), "origins": [unk]}),
+        ("list-known-and-unknown-items", {"list": dict(known_item, **{unk + ".happy": 3})}),
+        ("list-known-and-originless-items", {"list": dict(known_item, happy=3)}),
+        ("list-known", {"list": dict(known_item)}),
+        ("list-known-origins", {"list": {}, "origins": [ln] if ln else []}),
+    ]
+    fam["pointer"] = [
+        ("divert-nowhere", {"^->": "nowhere"}),
+        ("divert-index-out-of-range", {"^->": knot + ".999"}),
+        ("divert-unknown-child", {"^->": knot + ".nosuch.3"}),
+        ("divert-empty", {"^->": ""}),
+        ("divert-parents", {"^->": ".^.^.^.^"}),
+        ("divert-known", {"^->": knot}),
+        ("varptr-unknown", {"^var": "nosuch", "ci": -1}),
+        ("varptr-unknown-ci0", {"^var": "nosuch", "ci": 0}),
+        ("varptr-ci-out-of-range", {"^var": gv, "ci": rng.choice([1, 2, 5, 99, 2**31 - 1])}),
+        ("varptr-ci-negative", {"^var": gv, "ci": rng.choice([-2, -99, -2**31])}),
+        ("varptr-empty-name", {"^var": "", "ci": 0}),
+        ("varptr-known", {"^var": gv, "ci": 0}),
+    ]
+    fam["scalar"] = [
+        ("int-max", 2**31 - 1), ("int-min", -2**31), ("float-big", 1e38), ("float-tiny", 5e-324),
+        ("bool", True), ("str-empty", "^"), ("str-newline", "\n"), ("str-long", "^" + "x" * 200),
+        ("str-unicode", "^é\U0001f600"),
+    ]
+    fam["nonvalue"] = [
+        ("ctl-ev", "ev"), ("ctl-void", "void"), ("ctl-glue", "<>"), ("ctl-done", "done"), ("ctl-ret", "~ret"),
+        ("ctl-tunnel-ret", "->->"), ("ctl-thread", "thread"), ("ctl-nop", "nop"), ("fn-list-all", "LIST_ALL"),
+        ("fn-add", "+"), ("divert-obj", {"->": "nowhere"}), ("divert-fn", {"f()": "nowhere"}),
+        ("divert-var", {"->": gv, "var": True}), ("varref-unknown", {"VAR?": "nosuch"}),
+        ("readcount-unknown", {"CNT?": "nowhere"}), ("assign", {"VAR=": "nosuch"}), ("temp-assign", {"temp=": "t"}),
+        ("tag", {"#": "t"}), ("choice-point", {"*": "nowhere", "flg": 31}), ("container", ["^x", None]),
+        ("choice", {"text": "c", "index": 0, "originalChoicePath": "nowhere", "originalThreadIndex": 9,
+                    "targetPath": "nowhere.4", "tags": []}),
+        ("null", None),
+    ]
+    fam["path"] = [
+        ("path-nowhere", "nowhere"), ("path-index-out-of-range", knot + ".999"), ("path-unknown-child", knot + ".nosuch"),
+        ("path-empty", ""), ("path-dot", "."), ("path-parents", ".^.^"), ("path-deep", knot + ".0.0.0.0.0.0"),
+        ("path-number", "999"), ("path-negative", knot + ".-1"), ("path-huge-index", knot + ".18446744073709551616"),
+        ("path-unicode", "é.0"), ("path-known", knot), ("path-root-index", "0"),
+    ]
+    return fam
+
+
+def save_slots(doc):
+    """the places of a save document where a value / a reference / a counter sits:
+    (kind, path) with kind in objlist | valdict | elem | path | pathmap | int | list | flowname | ctmap | thread"""
+    out = []
+
+    def walk(v, path):
+        if isinstance(v, dict):
+            for k, x in v.items():
+                p = path + (k,)
+                if k in ("evalStack", "outputStream") and isinstance(x, list):
+                    out.append(("objlist", p))
+                if k in ("variablesState", "temp") and isinstance(x, dict):
+                    out.append(("valdict", p))
+                if k in ("visitCounts", "turnIndices") and isinstance(x, dict):
+                    out.append(("pathmap", p))
+                if k in PATH_KEYS and isinstance(x, str):
+                    out.append(("path", p))
+                if k in INT_KEYS and isinstance(x, (int, float)) and not isinstance(x, bool):
+                    out.append(("int", p))
+                if k == "list" and isinstance(x, dict):
+                    out.append(("list", path))
+                if k == "choiceThreads" and isinstance(x, dict):
+                    out.append(("ctmap", p))
+                if k == "currentFlowName":
+                    out.append(("flowname", p))
+                if k == "callstack" and isinstance(x, list):
+                    out.append(("thread", path))
+                    for i, e in enumerate(x):
+                        if isinstance(e, dict):
+                            out.append(("elem", p + (i,)))
+                walk(x, p)
+        elif isinstance(v, list):
+            for i, x in enumerate(v):
+                walk(x, path + (i,))
+
+    walk(doc, ())
+    if isinstance(doc, dict):
+        out.append(("top", ()))
+    return out
+
+
+def save_variants(doc):
+    """the same save in the other shapes the loader accepts: the pre-flows ("old") format and a save with a
+    second, named flow"""
+    out = []
+    try:
+        flows = doc["flows"]
+        name = doc.get("currentFlowName") if doc.get("currentFlowName") in flows else sorted(flows)[0]
+        fl = flows[name]
+        old = {k: copy.deepcopy(v) for k, v in doc.items() if k not in ("flows", "currentFlowName")}
+        old["callstackThreads"] = copy.deepcopy(fl["callstack"])
+        for k in ("outputStream", "currentChoices", "choiceThreads"):
+            if k in fl:
+                old[k] = copy.deepcopy(fl[k])
+        out.append(("old-format", old))
+        two = copy.deepcopy(doc)
+        two["flows"]["f2"] = copy.deepcopy(fl)
+        out.append(("two-flows", two))
+        cur = copy.deepcopy(two)
+        cur["currentFlowName"] = "f2"
+        out.append(("two-flows-current", cur))
+    except (KeyError, TypeError, IndexError, AttributeError):
+        pass
+    return out
+
+
+def save_values(doc, story_doc, rng, n):
+    """n value-level mutants of a parsed save: (kind, text).  Every value slot (evalStack, outputStream,
+    variablesState, every temp of every call-stack element incl. the choice threads) receives LIST values of
+    unknown / missing origin first (sweep), then slot kinds are visited round robin."""
+    facts = story_facts(story_doc)
+    slots = save_slots(doc)
+    by = {}
+    for k, p in slots:
+        by.setdefault(k, []).append(p)
+    out, seen = [], set()
+
+    def emit(kind, d):
+        t = dumps(d)
+        if t not in seen:
+            seen.add(t)
+            out.append(("val:" + kind, t))
+
+    def pick(families):
+        fam = alien_values(facts, rng)
+        f = rng.choice(families)
+        return rng.choice(fam[f])
+
+    def slot_name(p):
+        names = [str(x) for x in p if isinstance(x, str) and x not in ("flows", "callstack", "threads")]
+        return "/".join(names[-2:]) if names else "top"
+
+    def mutate(kind, p, families=None):
+        d = copy.deepcopy(doc)
+        try:
+            if kind == "objlist":
+                ak, av = pick(families or ["list", "list", "pointer", "scalar", "nonvalue"])
+                lst = get(d, p)
+                op = rng.choice(["append", "insert", "replace"] if lst else ["append"])
+                if op == "append":
+                    lst.append(av)
+                elif op == "insert":
+                    lst.insert(rng.randrange(len(lst) + 1), av)
+                else:
+                    lst[rng.randrange(len(lst))] = av
+                emit(f"{slot_name(p)}:{op}:{ak}", d)
+            elif kind == "valdict":
+                ak, av = pick(families or ["list", "list", "pointer", "scalar", "nonvalue"])
+                m = get(d, p)
+                keys = sorted(m)
+                if keys and rng.random() < 0.6:
+                    m[rng.choice(keys)] = av
+                    op = "set"
+                else:
+                    m[rng.choice(["zz_new", "", "nosuch"] + facts["globals"][:2])] = av
+                    op = "add"
+                emit(f"{slot_name(p)}:{op}:{ak}", d)
+            elif kind == "elem":
+                e = get(d, p)
+                what = rng.choice(["temp", "temp", "cPath", "idx", "type", "exp", "nocpath", "noidx", "fnStart"])
+                if what == "temp":
+                    ak, av = pick(families or ["list", "list", "pointer", "nonvalue"])
+                    e.setdefault("temp", {})[rng.choice(["zz_t", "x", ""])] = av
+                elif what == "cPath":
+                    ak, av = pick(["path"])
+                    e["cPath"] = av
+                    e.setdefault("idx", 0)
+                elif what == "idx":
+                    ak, av = "int", rng.choice(ALIEN_INTS)
+                    e["idx"] = av
+                    e.setdefault("cPath", facts["knots"][0] if facts["knots"] else "")
+                elif what == "type":
+                    ak, av = "int", rng.choice(ALIEN_INTS)
+                    e["type"] = av
+                elif what == "exp":
+                    ak, av = "flip", not e.get("exp", False)
+                    e["exp"] = av
+                elif what == "nocpath":
+                    ak = "drop"
+                    e.pop("cPath", None)
+                elif what == "noidx":
+                    ak = "drop"
+                    e.pop("idx", None)
+                else:
+                    ak, av = "int", rng.choice(ALIEN_INTS)
+                    e["fnStart"] = av
+                emit(f"elem/{what}:{ak}", d)
+            elif kind == "path":
+                ak, av = pick(["path"])
+                d = setp(d, p, av)
+                emit(f"{slot_name(p)}:{ak}", d)
+            elif kind == "pathmap":
+                m = get(d, p)
+                keys = sorted(m)
+                if keys and rng.random() < 0.5:
+                    m[rng.choice(keys)] = rng.choice(ALIEN_INTS)
+                    ak = "count"
+                else:
+                    ak, av = pick(["path"])
+                    m[av] = rng.choice(ALIEN_INTS)
+                emit(f"{slot_name(p)}:{ak}", d)
+            elif kind == "int":
+                d = setp(d, p, rng.choice(ALIEN_INTS))
+                emit(f"{slot_name(p)}:int", d)
+            elif kind == "list":
+                holder = get(d, p)
+                items = holder["list"]
+                unk = _unknown_name(facts["lists"])
+                what = rng.choice(["rename-origin", "drop-origin", "origins", "value", "add-item", "rename-item"])
+                keys = sorted(items)
+                if what == "rename-origin" and keys:
+                    for k in (keys if rng.random() < 0.5 else [rng.choice(keys)]):
+                        items[unk + "." + k.split(".", 1)[-1]] = items.pop(k)
+                elif what == "drop-origin" and keys:
+                    k = rng.choice(keys)
+                    items[k.split(".", 1)[-1]] = items.pop(k)
+                elif what == "origins":
+                    holder["origins"] = rng.choice([[unk], [], [unk, unk], sorted(facts["lists"])[:1] + [unk]])
+                elif what == "value" and keys:
+                    items[rng.choice(keys)] = rng.choice(ALIEN_INTS)
+                elif what == "rename-item" and keys:
+                    k = rng.choice(keys)
+                    items[k.split(".", 1)[0] + ".nosuch"] = items.pop(k)
+                else:
+                    what = "add-item"
+                    ak, av = rng.choice(alien_values(facts, rng)["list"])
+                    items.update(av["list"])
+                emit(f"{slot_name(p)}/list:{what}", d)
+            elif kind == "ctmap":
+                m = get(d, p)
+                keys = sorted(m)
+                what = rng.choice(["rename", "drop", "clear", "retarget"])
+                if what == "rename" and keys:
+                    m[rng.choice(["99", "-1", "x", "", "18446744073709551616"])] = m.pop(rng.choice(keys))
+                elif what == "drop" and keys:
+                    m.pop(rng.choice(keys))
+                elif what == "clear":
+                    m.clear()
+                else:
+                    what = "retarget"
+                    par = get(d, p[:-1])
+                    for c in par.get("currentChoices", []):
+                        if isinstance(c, dict) and rng.random() < 0.7:
+                            c["originalThreadIndex"] = rng.choice(ALIEN_INTS)
+                emit(f"choiceThreads:{what}", d)
+            elif kind == "flowname":
+                d = setp(d, p, rng.choice(["nosuchflow", "", "default", "f2", "DEFAULT_FLOW"]))
+                emit("currentFlowName", d)
+            elif kind == "thread":
+                t = get(d, p)
+                what = rng.choice(["empty", "dup-elem", "pop-elem", "no-prev"])
+                cs = t["callstack"]
+                if what == "empty":
+                    cs[:] = []
+                elif what == "dup-elem" and cs:
+                    cs.append(copy.deepcopy(rng.choice(cs)))
+                elif what == "pop-elem" and cs:
+                    cs.pop(rng.randrange(len(cs)))
+                else:
+                    what = "no-prev"
+                    t.pop("previousContentObject", None)
+                emit(f"thread:{what}", d)
+            elif kind == "top":
+                what = rng.choice(["divert-target", "divert-target", "no-eval", "no-vars", "no-counts", "threads-empty"])
+                if what == "divert-target":
+                    ak, av = pick(["path"])
+                    d["currentDivertTarget"] = av
+                    what += ":" + ak
+                elif what == "no-eval":
+                    d.pop("evalStack", None)
+                elif what == "no-vars":
+                    d.pop("variablesState", None)
+                elif what == "no-counts":
+                    d.pop("visitCounts", None)
+                    d.pop("turnIndices", None)
+                else:
+                    for q in [q for k2, q in slots if k2 == "thread"][:1]:
+                        par = get(d, q[:-1])
+                        if isinstance(par, list):
+                            par[:] = []
+                emit(f"top:{what}", d)
+        except (KeyError, IndexError, TypeError, ValueError, AttributeError):
+            pass
+
+    # sweep: every value slot gets list values the story cannot account for
+    sweep = [(k, p) for k, p in slots if k in ("objlist", "valdict")]
+    rng.shuffle(sweep)
+    sweep = [kp for kp in sweep if kp[0] == "objlist"] * 3 + [kp for kp in sweep if kp[0] == "valdict"]
+    for k, p in sweep:
+        if len(out) >= max(1, (2 * n) // 3):
+            break
+        mutate(k, p, families=["list"])
+    kinds = sorted(by)
+    tries = 0
+    while len(out) < n and kinds and tries < 6 * n + 20:
+        k = kinds[tries % len(kinds)]
+        tries += 1
+        mutate(k, rng.choice(by[k]))
+    return out[:n]
